@@ -838,7 +838,7 @@ class Workspace(_ChannelSummaryMixin, dict):
             {
                 'name': name,
                 'config': {
-                    'poi': model.config.poi_name,
+                    'poi': model.config.poi_name or '',
                     'parameters': [
                         {
                             "bounds": [
